@@ -28,6 +28,16 @@ STUBS = ["netCDF4.Dataset -> in-memory dataset (read) / write recorder", "verif.
          "util.is_valid_nc, Netcdf.is_valid, Comps.is_valid, Text.is_valid -> chosen booleans (dispatch harness)"]
 
 
+
+# global attributes of the file -> (name, units, x0, x1) of the dataset's variable
+ATTRS = [
+    ({"long_name": "Temperature", "units": "K", "x0": 0.0}, "Temperature", "$K$", 0.0, None),
+    ({"standard_name": "air_temperature", "units": "%"}, "air_temperature", "%", None, None),
+    ({}, "Unknown variable", "Unknown units", None, None),
+    ({"long_name": "Precip", "units": "mm", "x0": 0.0, "x1": 100.0}, "Precip", "$mm$", 0.0, 100.0),
+    ({"long_name": "Cloud cover", "units": "", "x1": 1.0}, "Cloud cover", "Unknown units", None, 1.0),
+]
+
 class RVar(object):
     def __init__(self, arr):
         self._arr = arr
@@ -95,7 +105,7 @@ def h_reader(T, L, P):
         util = load.modules["verif.util"]
         bits = S.choose("optional", 2 ** len(GROUPS))
         has = {g: bool(bits & (1 << i)) for i, g in enumerate(GROUPS)}
-        attrs_variant = S.choose("attrs", 3)
+        attrs_variant = S.choose("attrs", len(ATTRS))
         times = [0, 86400][:T]
         lts = [0.0, 6.0][:L]
         shape = (T, L, P)
@@ -126,7 +136,7 @@ def h_reader(T, L, P):
             variables["pit"], cells["pit"] = sym_var(S, "pit", shape, masked=False)
         if has["extra"]:
             variables["extra"], cells["extra"] = sym_var(S, "extra", shape, masked=False)
-        attrs = [{"long_name": "Temperature", "units": "K", "x0": 0.0}, {"standard_name": "air_temperature", "units": "%"}, {}][attrs_variant]
+        attrs = ATTRS[attrs_variant][0]
         ds = RDataset(dims, variables, attrs)
 
         class NC(object):
@@ -173,10 +183,9 @@ def h_reader(T, L, P):
                 want = cleaned(cells["altitude"][(i,)]) if has["altitude"] else float("nan")
                 S.prove("location-elevation", S.same(loc.elev, want))
             v = n.variable
-            want_name = ["Temperature", "air_temperature", "Unknown variable"][attrs_variant]
-            want_units = ["$K$", "%", "Unknown units"][attrs_variant]
-            S.prove("variable-metadata", v.name == want_name and v.units == want_units and
-                    (v.x0 == 0.0 if attrs_variant == 0 else v.x0 is None) and v.x1 is None, detail=str(attrs_variant))
+            _, want_name, want_units, want_x0, want_x1 = ATTRS[attrs_variant]
+            S.prove("variable-metadata", v.name == want_name and v.units == want_units and v.x0 == want_x0 and v.x1 == want_x1,
+                    detail="attributes %s" % sorted(ATTRS[attrs_variant][0]))
         finally:
             inp.netCDF4, util.netCDF4 = old_i, old_u
     return fn
